@@ -1,4 +1,5 @@
 import CkbVerif.Lemmas.ReorgStage
+import CkbVerif.Lemmas.ReorgReadd
 
 /-!
 # C12 — after any reorg the pool agrees with the new chain
@@ -35,8 +36,20 @@ Clauses of the property:
 * structure           `update_only_drops_or_restages`, `descendants_are_reachable_children`,
                       `removal_closed_under_links`, `chain_live_cell_stays_live`, `chain_attached_output_is_live`.
 
-Not covered by theorems: `check_and_record_ancestors`'s eviction of cell-ref parents during a re-add
-(modelled as a refusal), RBF, the victim order of `limit_size` (any order), the async schedule.
+* the re-adds as the code does them (`Model/ReorgReadd.lean`: `addEntry` = `PoolMap::add_entry` with
+  `check_and_record_ancestors`'s eviction of cell-ref parents, `detachProposalR` = `remove_by_detached_proposal`
+  whose `add_pending` can be refused, `reorgR` = the section with both; the driver answers with `reorgR`):
+                      `add_entry_never_invents`, `add_entry_within_limit_inserts`,
+                      `add_entry_over_limit_without_cell_ref_parent_refuses`, `add_entry_eviction_ends_within_limit`,
+                      `readd_refusal_model_exact_without_cell_ref_parents`, `reorgR_eq_reorg_partial`,
+                      `updateR_only_drops_or_restages`, `reorgR_adds_only_resolving_detached`,
+                      `no_committed_in_pool_R`, `no_conflict_with_attached_R`, `no_conflict_after_reorgR`,
+                      `no_detached_header_dep_R`, `no_expired_in_pool_R`; negation witnesses (suspected defects):
+                      `detached_proposal_readd_refused_orphans_child`, `readd_evicts_cell_ref_parent`,
+                      `readd_evicts_creator_of_own_input`, `readd_refused_after_eviction_loses_admissible_txs`.
+
+Not covered by theorems: RBF, the victim order of `limit_size` (any order), the async schedule; InputsResolvable and
+stage = window are NOT re-proved for `reorgR` (the witnesses above show InputsResolvable fails there).
 -/
 
 namespace CkbVerif.C12
@@ -507,5 +520,207 @@ example :
     let a : Args := { attached := [], detachedHeaders := [], detachedProposals := [2], gap := [2], proposed := [1, 3, 4], expired := [] }
     (reorg [⟨1, 2, [10], [], [], [16], 0⟩, ⟨2, 2, [11], [], [], [32], 0⟩, ⟨3, 0, [12], [], [], [48], 0⟩, ⟨4, 1, [13], [], [], [64], 0⟩] a).map
       (fun e => (e.id, e.status)) = [(1, 2), (2, 1), (3, 2), (4, 2)] := by decide
+
+
+/-! ## the re-adds as the code does them: `add_entry`, `remove_by_detached_proposal`, `reorgR` -/
+
+/-- `PoolMap::add_entry` never invents or alters an entry (evictions only remove) -/
+theorem add_entry_never_invents (m : Nat) (pref : List Nat) (q : Pool) (e e' : PEnt)
+    (h : e' ∈ (addEntry m pref q e).1) : e' ∈ q ∨ e' = e := addEntry_mem m pref q e h
+
+/-- within `max_ancestors_count` a transaction with a fresh id is inserted and nothing else changes -/
+theorem add_entry_within_limit_inserts (m : Nat) (pref : List Nat) (q : Pool) (e : PEnt) (hid : hasId q e.id = false)
+    (h : (ancestorsOf q (linkParentsE q e)).length + 1 ≤ m) : addEntry m pref q e = (q ++ [e], true) :=
+  addEntry_within_limit m pref q e hid h
+
+/-- over the limit with no cell-ref parent: `ExceededMaximumAncestorsCount`, the pool is unchanged -/
+theorem add_entry_over_limit_without_cell_ref_parent_refuses (m : Nat) (pref : List Nat) (q : Pool) (e : PEnt)
+    (h : m < (ancestorsOf q (linkParentsE q e)).length + 1) (hc : cellRefParents q e = []) :
+    addEntry m pref q e = (q, false) := addEntry_over_limit_no_cell_ref m pref q e h hc
+
+/-- the eviction loop of `check_and_record_ancestors` is entered only when it can succeed: whenever
+    `ancestors_count - |cell_ref_parents| ≤ max` it ends with `ancestors_count ≤ max` (the premise of the
+    `assert!(ancestors.len() < max_ancestors_count)` that follows it), whatever the eviction order -/
+theorem add_entry_eviction_ends_within_limit (m : Nat) (cs : List Nat) (cnt : Nat) (q : Pool) (ps : List Nat)
+    (h : cnt - cs.length ≤ m) : (evictLoop m cs cnt q ps).2.2 ≤ m := evictLoop_count m cs cnt q ps h
+
+/-- non-vacuity: B (2) has cell 20 as a cell dep, the new entry 3 spends 20 and an output of 1: over the limit 2
+    because of B only, B is evicted and 3 is inserted -/
+example : addEntry 2 [] [⟨1, 0, [10], [], [], [16], 0⟩, ⟨2, 0, [11], [20], [], [32], 0⟩] ⟨3, 0, [16, 20], [], [], [48], 0⟩
+    = ([⟨1, 0, [10], [], [], [16], 0⟩, ⟨3, 0, [16, 20], [], [], [48], 0⟩], true) := by decide
+
+/-- the refusal model of `Model/Reorg.lean` (`readdOne`) is EXACT for a transaction none of whose inputs is a
+    cell dep of a pooled entry (the hypothesis that used to be an assumption of the tie) -/
+theorem readd_refusal_model_exact_without_cell_ref_parents (a : Args) (live : List Nat) (q : Pool) (t : CTx)
+    (hc : cellRefParents q (entryOf a t) = []) : readdOneR a live q t = readdOne a live q t :=
+  readdOneR_eq_readdOne a live q t hc
+
+/-- every surviving entry of the update with the real `remove_by_detached_proposal` is an old entry (possibly at another stage) -/
+theorem updateR_only_drops_or_restages (p : Pool) (a : Args) : Sub (updateR p a) p :=
+  (sub_updateR_attached p a).trans (sub_foldl _ sub_removeCommitted _ _)
+
+/-- everything pooled after the whole section is a survivor of the update or a detached-only transaction that
+    resolved against the pool of its turn + the new chain and passed fee and scripts, at the stage of the new window -/
+theorem reorgR_adds_only_resolving_detached (p : Pool) (a : Args) (e : PEnt) (he : e ∈ reorgR p a) :
+    e ∈ limitSize a (updateR p a) ∨
+    ∃ l1 t l2, retain a = l1 ++ t :: l2 ∧
+      resolves (readdR a (newLive a) (limitSize a (updateR p a)) l1) a (newLive a) t = true ∧ t.ok = true ∧ e = entryOf a t :=
+  readdR_prov a (newLive a) (retain a) _ he
+
+/-- NoCommittedPooled for the section with the real re-adds -/
+theorem no_committed_in_pool_R (p : Pool) (a : Args) : ∀ tx ∈ a.attached, ∀ e ∈ reorgR p a, e.id ≠ tx.id := by
+  intro tx htx e he
+  rcases reorgR_adds_only_resolving_detached p a e he with h | ⟨l1, t, l2, hr, _, _, rfl⟩
+  · have hsub : Sub (limitSize a (updateR p a)) (a.attached.foldl removeCommitted p) :=
+      (sub_limitSize a _).trans (sub_updateR_attached p a)
+    exact hsub.forall (fun id _ _ _ => id ≠ tx.id) (foldl_removeCommitted_no_id a.attached p tx htx) e h
+  · have ht : t ∈ retain a := by rw [hr]; simp
+    exact fun h => (mem_retain.mp ht).2 tx htx h.symm
+
+/-- NoConflict for the survivors of the update with the real `remove_by_detached_proposal` and `limit_size` -/
+theorem no_conflict_with_attached_R (p : Pool) (a : Args) (hnd : NoDoubleSpend p) :
+    ∀ e ∈ limitSize a (updateR p a), ∀ t ∈ a.attached, ∀ i ∈ t.spent, i ∉ e.spent ∧ i ∉ e.deps := by
+  intro e he t ht i hi
+  obtain ⟨e0, he0, _, i2, i3, _⟩ := ((sub_limitSize a _).trans (sub_updateR_attached p a)) e he
+  have := foldl_removeCommitted_clears a.attached p hnd e0 he0 t ht i hi
+  exact ⟨i2 ▸ this.1, i3 ▸ this.2⟩
+
+/-- NoConflict for the whole section with the real re-adds, on a well-formed chain change (same side condition as
+    `no_conflict_after_reorg`) -/
+theorem no_conflict_after_reorgR (p : Pool) (a : Args) (hnd : NoDoubleSpend p)
+    (hchain : ∀ y ∈ a.attached, ∀ i ∈ y.spent, i ∉ newLive a ∧ (∀ d ∈ retain a, i ∉ d.outs) ∧
+      (∀ x ∈ p, (∀ y' ∈ a.attached, y'.id ≠ x.id) → i ∉ x.outs)) :
+    ∀ e ∈ reorgR p a, ∀ t ∈ a.attached, ∀ i ∈ t.spent, i ∉ e.spent ∧ i ∉ e.deps := by
+  intro e he t ht i hi
+  rcases reorgR_adds_only_resolving_detached p a e he with h | ⟨l1, t', l2, hr, hA, _, rfl⟩
+  · exact no_conflict_with_attached_R p a hnd e h t ht i hi
+  · have key : i ∉ t'.spent ++ t'.deps := by
+      intro hmem
+      obtain ⟨_, h2⟩ := cellLive_cases (resolves_cells hA i hmem)
+      obtain ⟨hdead, hret, hpool⟩ := hchain t ht i hi
+      rcases h2 with ⟨x, hx, hox⟩ | h2
+      · rcases readdR_prov a (newLive a) l1 _ hx with hxu | ⟨la, d, lb, hl1, _, _, rfl⟩
+        · obtain ⟨x1, hx1, j1, _, _, _, j5⟩ := sub_limitSize a _ x hxu
+          obtain ⟨x0, hx0, i1, _, _, _, i5⟩ := updateR_only_drops_or_restages p a x1 hx1
+          refine hpool x0 hx0 ?_ (i5 ▸ j5 ▸ hox)
+          intro y' hy' hid
+          have hsub : Sub (updateR p a) (a.attached.foldl removeCommitted p) := sub_updateR_attached p a
+          exact hsub.forall (fun id _ _ _ => id ≠ y'.id) (foldl_removeCommitted_no_id a.attached p y' hy') x1 hx1 (i1.trans hid.symm)
+        · have hdm : d ∈ retain a := by rw [hr, hl1]; simp
+          exact hret d hdm hox
+      · exact hdead h2
+    exact ⟨fun h => key (List.mem_append.mpr (Or.inl h)), fun h => key (List.mem_append.mpr (Or.inr h))⟩
+
+/-- no pooled entry depends on a detached header, with the real re-adds -/
+theorem no_detached_header_dep_R (p : Pool) (a : Args) :
+    ∀ e ∈ reorgR p a, ∀ h ∈ e.hdeps, h ∉ a.detachedHeaders := by
+  intro e he h hh hdet
+  rcases reorgR_adds_only_resolving_detached p a e he with h1 | ⟨l1, t, l2, _, hA, _, rfl⟩
+  · let p1 := a.attached.foldl removeCommitted p
+    have hsub : Sub (limitSize a (updateR p a)) (resolveHeaderDeps p1 a.detachedHeaders) := by
+      refine (sub_limitSize a _).trans ?_
+      unfold updateR; exact sub_updateR_tail a _
+    obtain ⟨e2, he2, i1, _, _, i4, _⟩ := hsub e h1
+    obtain ⟨e1, he1, j1, _, _, j4, _⟩ := sub_resolveHeaderDeps p1 a.detachedHeaders e2 he2
+    have hoff : e1 ∈ p1.filter (fun x => x.hdeps.any a.detachedHeaders.contains) := by
+      apply List.mem_filter.mpr
+      refine ⟨he1, ?_⟩
+      rw [List.any_eq_true]
+      exact ⟨h, by rw [← j4, ← i4]; exact hh, by simpa using hdet⟩
+    have hclear := foldl_removeWithDesc_clears (fun x => x.hdeps.any a.detachedHeaders.contains) p1 e2 he2
+    apply hclear
+    rw [j1]
+    exact List.mem_map_of_mem hoff
+  · exact resolves_hdeps hA h hh hdet
+
+/-- no expired id survives the update with the real `remove_by_detached_proposal` -/
+theorem no_expired_in_pool_R (p : Pool) (a : Args) : ∀ e ∈ updateR p a, e.id ∉ a.expired := by
+  intro e he
+  exact foldl_removeWithDesc_no_id a.expired _ e he
+
+/-- REFINEMENT (partial): the optimistic model `reorg` of the 34 theorems above IS the section as the code does it
+    whenever (1) every pooled entry with a detached proposal id is pending (so `remove_by_detached_proposal` has
+    nothing to take out) and (2) no pooled entry and no detached-only transaction has an input of a detached-only
+    transaction as a cell dep (so `check_and_record_ancestors` has no cell-ref parent to evict).
+    FULL STATEMENT not proved: equality up to the order of the pool whenever every re-add of
+    `remove_by_detached_proposal` is within the ancestor limit at its turn (needs permutation-invariance of the
+    later phases); the tie compares the two on every generated chain change instead. -/
+theorem reorgR_eq_reorg_partial (p : Pool) (a : Args)
+    (h1 : ∀ id ∈ a.detachedProposals, ∀ e ∈ p, e.id = id → e.status = 0)
+    (h2 : ∀ x ∈ p, ∀ t ∈ retain a, ∀ o ∈ t.spent, o ∉ x.deps)
+    (h3 : ∀ d ∈ retain a, ∀ t ∈ retain a, ∀ o ∈ t.spent, o ∉ d.deps) : reorgR p a = reorg p a := by
+  have hp2 : ∀ e ∈ resolveHeaderDeps (a.attached.foldl removeCommitted p) a.detachedHeaders, e ∈ p :=
+    fun e he => mem_of_mem_conflict_phases p a he
+  have hfold := foldl_detachProposalR_eq_of_pending a.maxAnc a.evictPref a.detachedProposals
+    (resolveHeaderDeps (a.attached.foldl removeCommitted p) a.detachedHeaders)
+    (fun id hid e he => h1 id hid e (hp2 e he))
+  have hupd : updateR p a = update p a := by
+    unfold updateR update
+    simp only [hfold.1, hfold.2]
+  unfold reorgR reorg updateL
+  rw [hupd]
+  apply readdR_eq_readd _ _ _ _ _ h3
+  intro x hx t ht o ho
+  obtain ⟨x0, hx0, _, _, i3, _⟩ := ((sub_limitSize a _).trans (update_only_drops_or_restages p a)) x hx
+  rw [i3]; exact h2 x0 hx0 t ht o ho
+
+/-- non-vacuity of `reorgR_eq_reorg_partial` and of the clauses above: the m1 history -/
+example : reorgR poolM1 argsM1 = reorg poolM1 argsM1 ∧ (reorgR poolM1 argsM1).map (·.id) = [4] := by decide
+
+/-! ### negation witnesses: what the real re-adds break (suspected defects, reproduced on the node) -/
+
+/-- SUSPECTED DEFECT (replay corpus/C12/reorg-suspect-detached-proposal-readd-refused.ops): limit 2; the chain
+    1 → 2 → 3 → 4 is pooled (3 and 4 are over the limit: their ancestors 1, 2 were re-added behind them by an earlier
+    reorg, which nothing checks), 3 is proposed and its proposal is detached. `remove_by_detached_proposal` takes 3
+    and 4 out; the re-add of 3 is refused (3 ancestors-with-self > 2) and only logged; the re-add of 4 finds no
+    pooled parent and succeeds: 4 stays pooled with the input 48 that is neither live nor created in the pool, and
+    3 is lost although nothing on the chain conflicts with it. -/
+theorem detached_proposal_readd_refused_orphans_child :
+    let p : Pool := [⟨1, 0, [10], [], [], [16], 0⟩, ⟨2, 0, [16], [], [], [32], 0⟩, ⟨3, 2, [32], [], [], [48], 0⟩, ⟨4, 0, [48], [], [], [64], 0⟩]
+    let a : Args := { attached := [], detachedHeaders := [], detachedProposals := [3], gap := [], proposed := [], expired := [],
+                      live := [10], maxAnc := 2 }
+    Resolvable (· ∈ a.live) p ∧ (reorgR p a).map (·.id) = [1, 2, 4] ∧ ¬ Resolvable (· ∈ newLive a) (reorgR p a) ∧
+    (reorg p a).map (·.id) = [1, 2, 3, 4] := by
+  refine ⟨?_, by decide, ?_, by decide⟩
+  · unfold Resolvable; decide
+  · unfold Resolvable; decide
+
+/-- the cell-ref eviction during a re-add (replay corpus/C12/reorg-readd-evicts-cell-ref-parent.ops): 1, B = 2 (cell dep
+    20) and t = 3 (spends 20 and an output of 1) were committed on the abandoned branch; limit 2: the re-add of t is over
+    the limit only because of B, B is evicted, t is back. The refusal model `reorg` keeps B and refuses t. -/
+theorem readd_evicts_cell_ref_parent :
+    let a : Args := { attached := [], detachedHeaders := [], detachedProposals := [], gap := [], proposed := [], expired := [],
+                      detached := [{ id := 1, spent := [10], outs := [16] }, { id := 2, spent := [11], deps := [20], outs := [32] },
+                                   { id := 3, spent := [16, 20], outs := [48] }],
+                      live := [32, 48], maxAnc := 2 }
+    (reorgR [] a).map (·.id) = [1, 3] ∧ (reorg [] a).map (·.id) = [1, 2] ∧ newLive a = [20, 11, 10] := by decide
+
+/-- SUSPECTED DEFECT (replay corpus/C12/reorg-suspect-evicted-cell-ref-parent-is-creator.ops, also reachable by a plain
+    submission): B = 2 spends an output of 1 and has cell 20 as a cell dep; t = 3 spends 20 AND B's output 32. Limit 2:
+    t is over the limit, B is its only cell-ref parent, B is evicted and leaves `parents`, so the check "every
+    remaining parent is pooled" passes and t is inserted — with the input 32 that nobody creates any more. -/
+theorem readd_evicts_creator_of_own_input :
+    let a : Args := { attached := [], detachedHeaders := [], detachedProposals := [], gap := [], proposed := [], expired := [],
+                      detached := [{ id := 1, spent := [10], outs := [16] }, { id := 2, spent := [16], deps := [20], outs := [32] },
+                                   { id := 3, spent := [32, 20], outs := [48] }],
+                      live := [48], maxAnc := 2 }
+    (reorgR [] a).map (·.id) = [1, 3] ∧ ¬ Resolvable (· ∈ newLive a) (reorgR [] a) ∧ 32 ∉ newLive a := by
+  refine ⟨by decide, ?_, by decide⟩
+  unfold Resolvable; decide
+
+/-- SUSPECTED DEFECT (replay corpus/C12/reorg-suspect-refused-after-eviction.ops): 1, B = 2 (cell dep 20), C = 3 (spends
+    B's output) and t = 4 (spends 20, an output of 1 and C's output) were committed on the abandoned branch; limit 3. The
+    re-add of t evicts its cell-ref parent B, which takes C along; C was another parent of t, so the insertion is
+    refused (/repo b7267ec) — but the evictions stay: B and C, both re-admitted a moment ago and both admissible
+    against the final pool and the new chain, are lost. -/
+theorem readd_refused_after_eviction_loses_admissible_txs :
+    let a : Args := { attached := [], detachedHeaders := [], detachedProposals := [], gap := [], proposed := [], expired := [],
+                      detached := [{ id := 1, spent := [10], outs := [16] }, { id := 2, spent := [11], deps := [20], outs := [32] },
+                                   { id := 3, spent := [32], outs := [48] }, { id := 4, spent := [16, 48, 20], outs := [64] }],
+                      live := [64], maxAnc := 3 }
+    (reorgR [] a).map (·.id) = [1] ∧
+    Admissible a (newLive a) (reorgR [] a) { id := 2, spent := [11], deps := [20], outs := [32] } := by
+  refine ⟨by decide, ?_⟩
+  decide
 
 end CkbVerif.C12
